@@ -17,6 +17,11 @@ Oracle (reference model in plain Python, from the statement): u is listed on e  
 unregister there AND u has had >= 1 live connection ever since; when the last live connection of u closes, u is
 registered nowhere.  Checked after every transition; a state that already shows a discrepancy is not expanded further
 (so every reported signature is the *first* deviation on its history).
+
+Part B (deviation-bounded, one environment event): the handling of the disconnect of a user's only connection is run one
+loop callback at a time while another frontend is subscribed to the active-users topics through a slow or a broken socket,
+and a new engine registers after every possible number of callbacks; afterwards the user must be listed nowhere and the
+handling must not have raised.
 """
 from __future__ import annotations
 
@@ -203,6 +208,81 @@ def check_record(rec) -> list[tuple[str, str]]:
     return out
 
 
+# ---------------------------------------------------------------------------------------------------------------------
+# part B: the last connection closes while other things happen (the handling of one disconnect explored step by step)
+
+class _WatcherSocket:
+    """socket of another frontend that subscribed to the active-users topics: sending to it takes a loop iteration ('slow', it
+    never answers the notification) or fails ('broken')"""
+
+    def __init__(self, mode):
+        self.mode = mode
+
+    async def send(self, msg):
+        import asyncio
+        if self.mode == "broken":
+            raise ConnectionError("websocket of a subscriber is broken")
+        await asyncio.sleep(0)
+
+    async def close(self, *a):
+        pass
+
+
+def disconnect_stepwise(case):
+    """case = dict(units=[units u1 is registered on], mode=slow|broken, env=None|"engine-registers", k=loop steps of the disconnect
+    handling after which the environment event lands).  -> observation"""
+    import openpectus.aggregator.models as Mdl
+    s = Sys()
+    s.apply(("connect", "c1", "u1"))
+    for e in case["units"]:
+        s.apply(("register", "u1", e))
+    ch = s._RpcChannel(s.endpoint.methods, _WatcherSocket(case["mode"]), channel_id="watcher")
+    ch.register_disconnect_handler(s.endpoint._on_disconnect)
+    with s.loop:
+        s.loop.run_until(ch.methods.subscribe(topics=[f"{e}/active_users" for e in UNITS]))
+        s.loop.drain()
+        task = s.loop.spawn(s.channels["c1"].on_disconnect(), name="disconnect")
+        n = 0
+        while True:
+            if n == case["k"] and case["env"] == "engine-registers":
+                s.agg._engine_data_map["E3"] = Mdl.EngineData(
+                    engine_id="E3", computer_name="pc", engine_version="0", uod_name="uod", uod_author_name="",
+                    uod_author_email="", uod_filename="", location="")
+            if not s.loop.step():
+                break
+            n += 1
+    raised = None
+    if task.done() and not task.cancelled() and task.exception() is not None:
+        raised = f"{type(task.exception()).__name__}: {task.exception()}"[:100]
+    obs = {"steps": n, "listed": {e: sorted(v) for e, v in s.listed().items()}, "handler_finished": task.done(), "raised": raised}
+    s.close()
+    return obs
+
+
+def check_stepwise(case, obs):
+    out = []
+    tag = f"{case['mode']}-subscriber" + (f":{case['env']}" if case["env"] else "")
+    stale = {e: v for e, v in obs["listed"].items() if "u1" in v}
+    if stale:
+        out.append((f"C37:listed-without-live-connection:while-handling-disconnect:{tag}",
+                    f"u1's only connection closed (registered on {case['units']}, another frontend subscribed to the active-users topics "
+                    f"with a {case['mode']} socket" + (f", {case['env']} after {case['k']} loop steps" if case["env"] else "") +
+                    f") but u1 is still listed: {obs['listed']} (handler finished: {obs['handler_finished']}, raised: {obs['raised']})"))
+    if obs["raised"]:
+        out.append((f"C37:disconnect-handling-raised:{obs['raised'].split(':')[0]}:{tag}", f"handling the disconnect raised {obs['raised']} for {case}"))
+    return out
+
+
+def stepwise_cases():
+    out = []
+    for units in (["E1", "E2"], ["E2"], ["E1"]):
+        for mode in ("slow", "broken"):
+            out.append(dict(units=units, mode=mode, env=None, k=0))
+            for k in range(0, 26):
+                out.append(dict(units=units, mode=mode, env="engine-registers", k=k))
+    return out
+
+
 def _obs_of(hist):
     return build(hist).obs
 
@@ -235,6 +315,19 @@ def run(ctx):
                     stats["removed_by_disconnect"] += 1
 
     res = explore.bfs(lambda h: build(h, conns), enabled, canon, on_tr, depth, step=step)
+    # part B
+    sw = stepwise_cases()
+    ctx.prove_deterministic(disconnect_stepwise, [sw[1], sw[-1]])
+    sw_steps = 0
+    sw_landed = 0
+    for case in sw:
+        obs = disconnect_stepwise(case)
+        sw_steps += obs["steps"]
+        sw_landed += 1 if case["env"] and case["k"] < obs["steps"] else 0
+        for sig, what in check_stepwise(case, obs):
+            ctx.violation(sig, what, {"stepwise": case})
+    if sw_landed < 20:
+        raise HarnessError("C37 part B vacuous: the environment event never landed inside the handling of the disconnect")
     if not stats["removed_by_disconnect"] or not stats["kept_by_other_conn"]:
         raise HarnessError("C37 vacuous: no disconnect of a listed user with / without another live connection was explored")
     ctx.note(f"[C37] depth={depth} states={res.states} transitions={res.transitions} max_depth={res.max_depth} "
@@ -250,6 +343,10 @@ def run(ctx):
         disconnects_of_listed_user_last_connection=stats["removed_by_disconnect"],
         disconnects_of_listed_user_other_connection_live=stats["kept_by_other_conn"],
         violating_transitions=stats["viol_transitions"], state_space_closed=res.complete, exhaustive=True,
+        stepwise_disconnect_cases=len(sw), stepwise_loop_steps=sw_steps, stepwise_cases_with_the_event_inside_the_handling=sw_landed,
+        stepwise_rule="part B: the only connection of a user registered on {E1,E2}/{E2}/{E1} closes while another frontend is subscribed "
+                      "to the active-users topics with a slow (suspending, never answering) or broken socket; the handling is run one "
+                      "loop callback at a time and a new engine registers after every possible number k of callbacks (and never)",
         explanation="exhaustive up to the depth bound: every enabled event applied in every canonical state of depth < bound "
                     "(state_space_closed=True means no state at the bound had successors left, i.e. the whole finite space was covered)",
     )
@@ -263,6 +360,10 @@ def run(ctx):
 
 
 def replay(data):
+    if "stepwise" in data:
+        obs = disconnect_stepwise(data["stepwise"])
+        print("case:", data["stepwise"], "->", obs)
+        return check_stepwise(data["stepwise"], obs)
     s = Sys(data.get("conns", CONNS))
     out = []
     for ev in data["history"]:
